@@ -12,4 +12,16 @@ CHECKS = {
         technique="TLA+ spec + TLC exhaustive state graph, edge replay into the Go caches",
         design_ref="DESIGN.md section 5 (C29), section 3 pattern R",
     ),
+    "C14": dict(
+        category="model_checking",
+        text="TLC enumerates every small scenario of the environment model BufScenarios.tla (all DAG shapes up to 4 events, all push "
+             "orders, duplicate pushes, one failing Check/Process at any event, four limit settings); each scenario is executed on the "
+             "real EventsBuffer and the recorded callback trace is validated line by line by TLC against the abstract machine "
+             "EventsBuffer.tla whose guards are the clauses of C14; seeded concurrent-pusher runs are validated the same way.",
+        note="Exhaustive over the bounded scenario space only; larger DAGs are sampled by the concurrent runs. The callback order is "
+             "the linearization order because callbacks run under the buffer mutex. Limits are asserted after PushEvent in sequential "
+             "scenarios only.",
+        technique="TLA+ abstract spec + TLC scenario enumeration + TLC trace validation of real-code traces",
+        design_ref="DESIGN.md section 5 (C14), section 3 patterns S and T",
+    ),
 }
